@@ -37,6 +37,7 @@ type options struct {
 	samples   int
 	seed      int
 	timeout   int
+	stopViol  int
 	summary   string
 	params    string
 	keepPC    bool
@@ -62,6 +63,7 @@ func parseFlags(args []string) *options {
 	fs.IntVar(&o.samples, "samples", 3, "sample paths with models per worker batch")
 	fs.IntVar(&o.seed, "seed", 0, "seed for sample selection")
 	fs.IntVar(&o.timeout, "timeout", 1800, "wall clock limit (s)")
+	fs.IntVar(&o.stopViol, "stop-viol", 0, "stop exploring after this many violations outside the known findings (0 = explore everything; for the seed matrix only)")
 	fs.StringVar(&o.summary, "summary", "", "summary-mode dump file (paths with pc and observations)")
 	fs.StringVar(&o.params, "params", "", "harness parameters k=v,k=v")
 	fs.BoolVar(&o.keepPC, "keep-pc", false, "keep path conditions in samples")
@@ -226,6 +228,7 @@ type Result struct {
 	WallS       float64            `json:"wall_s"`
 	Workers     int                `json:"workers"`
 	TimedOut    bool               `json:"timed_out"`
+	StoppedEarly bool              `json:"stopped_early,omitempty"`
 	WorkerFail  string             `json:"worker_fail,omitempty"`
 	Params      string             `json:"params"`
 	SummaryFile []string           `json:"summary_files,omitempty"`
@@ -245,6 +248,7 @@ func master(o *options, rawArgs []string) int {
 	queue[0] = []int{}
 	res := Result{Harness: o.entry, Pkg: o.pkg, Workers: o.workers, Params: o.params}
 	seenViol := map[string]bool{}
+	unknownViol, stopped := 0, false
 	busy := 0
 	cond := sync.NewCond(&mu)
 	deadline := t0.Add(time.Duration(o.timeout) * time.Second)
@@ -280,10 +284,10 @@ func master(o *options, rawArgs []string) int {
 			}
 			for {
 				mu.Lock()
-				for len(queue) == 0 && busy > 0 && failed == "" && time.Now().Before(deadline) {
+				for len(queue) == 0 && busy > 0 && failed == "" && !stopped && time.Now().Before(deadline) {
 					cond.Wait()
 				}
-				if len(queue) == 0 || failed != "" || !time.Now().Before(deadline) {
+				if len(queue) == 0 || failed != "" || stopped || !time.Now().Before(deadline) {
 					mu.Unlock()
 					b, _ := json.Marshal(workReq{Quit: true})
 					k.in.Write(b)
@@ -342,6 +346,12 @@ func master(o *options, rawArgs []string) int {
 						if len(res.Violations) < 400 {
 							res.Violations = append(res.Violations, v)
 						}
+						if v.Known == "" {
+							unknownViol++
+						}
+						if o.stopViol > 0 && unknownViol >= o.stopViol {
+							stopped = true
+						}
 					}
 				}
 				if len(res.Samples) < 64 {
@@ -374,9 +384,10 @@ func master(o *options, rawArgs []string) int {
 	}
 	mu.Lock()
 	defer mu.Unlock()
-	if !time.Now().Before(deadline) && (len(queue) > 0 || busy > 0) {
+	if !time.Now().Before(deadline) && (len(queue) > 0 || busy > 0) && !stopped {
 		res.TimedOut = true
 	}
+	res.StoppedEarly = stopped
 	res.WorkerFail = failed
 	res.WallS = time.Since(t0).Seconds()
 	sort.Slice(res.Violations, func(i, j int) bool {
